@@ -11,8 +11,10 @@ from common import *
 PROP = "C12"
 HEADER = "From Verif Require Import Model.Driver Judge.J12.\nOpen Scope list_scope. Open Scope N_scope.\n"
 
-FAULTS = ["none", "bad_schema", "bad_query", "gen_fail", "gen_fail_models", "missing_path", "dir_entry", "empty_queries", "syntax_error"]
-OUTCOME = {"none": 0, "bad_schema": 1, "bad_query": 1, "gen_fail": 2, "gen_fail_models": 2, "missing_path": 1, "dir_entry": 1, "empty_queries": 1, "syntax_error": 1}
+FAULTS = ["none", "bad_schema", "bad_query", "gen_fail", "gen_fail_models", "missing_path", "dir_entry", "empty_queries", "syntax_error",
+          "bad_query_first_file", "query_syntax_first_file", "bad_schema_first_file"]
+OUTCOME = {"none": 0, "bad_schema": 1, "bad_query": 1, "gen_fail": 2, "gen_fail_models": 2, "missing_path": 1, "dir_entry": 1, "empty_queries": 1, "syntax_error": 1,
+           "bad_query_first_file": 1, "query_syntax_first_file": 1, "bad_schema_first_file": 1}
 CONFIG_FAULTS = ["ok", "ok", "ok", "ok", "no_version", "bad_json", "unknown_field", "no_packages", "both_files", "missing"]
 
 
@@ -39,6 +41,13 @@ def make_package(i, fault, lang="go", engine="postgresql"):
         query = "-- nothing here\n"
     files[d + "/schema/001.sql"] = schema
     files[d + "/queries/q.sql"] = query
+    # a fault in a file that is NOT the last one of its directory, followed by a clean file
+    if fault == "bad_query_first_file":
+        files[d + "/queries/a_first.sql"] = "-- name: Bad%d :one\nSELECT nosuch FROM t%d;\n" % (i, i)
+    if fault == "query_syntax_first_file":
+        files[d + "/queries/a_first.sql"] = "-- name: Bad%d :one\nSELECT FROM WHERE;\n" % i
+    if fault == "bad_schema_first_file":
+        files[d + "/schema/000.sql"] = "ALTER TABLE nosuch ADD COLUMN a int;\n"
     dirs = []
     if fault == "missing_path":
         pkg["schema"] = d + "/nosuch"
@@ -224,6 +233,6 @@ def run(tier, seed):
     if getattr(rep, "proof_broken", None) and not rep.violations:
         rep.violation("proof obligation no longer checks: " + rep.proof_broken, {"theorem_file": "coq/theories/Props/C12.v", "detail": info}, no_input=True)
     return rep.finish("proof", ob, dis, checker_cmd(PROP),
-                      rule="multi-package configurations (1-4 packages, postgresql/mysql, JSON/YAML config) with every placement of 9 fault kinds (bad schema statement, syntax error, bad query, code-generation failure of the whole package or of models.go alone, missing path, directory-typed entry, empty query set; plus 6 config faults) run through the real `sqlc generate` and `sqlc compile` binaries in scratch directories: exit status, stderr, files created/modified; thorough = all placements for 1-3 packages; non-trivial = a fault or more than one package",
+                      rule="multi-package configurations (1-4 packages, postgresql/mysql, JSON/YAML config) with every placement of 12 fault kinds (bad schema statement, syntax error, bad query, each also in a file that is not the last of its directory, code-generation failure of the whole package or of models.go alone, missing path, directory-typed entry, empty query set; plus 6 config faults) run through the real `sqlc generate` and `sqlc compile` binaries in scratch directories: exit status, stderr, files created/modified; thorough = all placements for 1-3 packages; non-trivial = a fault or more than one package",
                       assumptions=["process exit status and file-system effects are observed on the binary, not proved",
                                    "per-package behaviour is abstracted to ParseFail / GenFail / Good in the loop model"])
